@@ -3,6 +3,20 @@
 package all
 
 import (
-	_ "verif/harness/internal/props/c16"
+	"verif/harness/internal/ev"
+	"verif/harness/internal/props/c16"
+	c16mysql "verif/harness/internal/props/c16/mysql"
 	_ "verif/harness/internal/props/c16/proxy"
 )
+
+// the wire layers of C16: PostgreSQL (plugged in by props/c16/proxy's init, which runs before this one), then MySQL
+// (Acra's SQL dialect, the log level and the log format are process globals, so the two run one after the other)
+func init() {
+	pg := c16.ProxyLayer
+	c16.ProxyLayer = func(r *ev.Run) {
+		if pg != nil {
+			pg(r)
+		}
+		c16mysql.Layer(r)
+	}
+}
